@@ -84,3 +84,16 @@ func VerifAttackerHandshake(conn net.Conn, ephemeralPub, ephemeralPriv []byte,
 	}
 	return
 }
+
+// VerifNewStreams returns the receive-side streams of a connection exactly as this node builds them (NewStreams), wrapped for
+// packet-level driving; the heartbeat stream (no inbox) is left out.
+func (p *P2P) VerifNewStreams() map[lib.Topic]*VerifStream {
+	out := map[lib.Topic]*VerifStream{}
+	for t, s := range p.NewStreams() {
+		if s.inbox == nil {
+			continue
+		}
+		out[t] = &VerifStream{s: s, inbox: s.inbox}
+	}
+	return out
+}
